@@ -209,7 +209,7 @@ Proof.
   - reflexivity.
   - pose proof (Forall_inv Hn) as H1. pose proof (Forall_inv_tail Hn) as H2. cbn beta in H1.
     cbn [nums map app assign_loop length seqz combine]. fold (nums r).
-    destruct (fst l <? 65535) eqn:E1; [|lia]. cbn [andb].
+    destruct (fst l <? 65536) eqn:E1; [|lia]. cbn [andb].
     unfold fitsb. cbn [Nat.eqb orb].
     destruct (new >? 65529) eqn:E2; rewrite Z.gtb_ltb in E2.
     + destruct (new + (Z.of_nat (S (length r)) - 1) * step <=? 65529) eqn:E3; [|reflexivity]. exfalso.
